@@ -65,6 +65,7 @@ def layer (head : String) (args : List Sexp) : Option ((Stream → Stream) × (S
 partial def evalPipe : Sexp → Option (Stream × Stream)
   | .list [.atom "just", v] => (parseData v).map fun d => (([d], .complete), ([d], .complete))
   | .list (.atom "from_iter" :: vs) => (vs.mapM parseData).map fun ds => ((ds, .complete), (ds, .complete))
+  | .list (.atom "from_iter_lazy" :: vs) => (vs.mapM parseData).map fun ds => ((ds, .complete), (ds, .complete))
   | .list [.atom "range", a, n] => do
       let a ← a.asInt; let n ← n.asNat
       let ds := (List.range n).map fun (i : Nat) => Data.int (a + (i : Int))
